@@ -15,6 +15,7 @@ Behaviours of a target:
 """
 import concurrent.futures
 import os
+import re
 import socket
 import subprocess
 import threading
@@ -263,7 +264,9 @@ def judge(case, r, peer, slack):
             if kd == "chatty" and "%s: x-%s" % (a, a) not in outl:
                 fun.append(("real:output-lost", "%s: nothing of what it printed before the deadline was relayed" % a))
             want = " | ".join(a + w for w in REPORT[kd])
-            if not any(l.startswith("pdsh@") and any(l.endswith(a + w) for w in REPORT[kd]) for l in errl):
+            # the property: reported on stderr under its own name -- any line with pdsh's prefix that names the
+            # host; the wording (REPORT = today's texts, for the message below only) is not part of it
+            if not any(re.match(r"^pdsh@[^:]*: %s: \S" % re.escape(a), l) for l in errl):
                 fun.append(("real:not-reported:" + kd, "%s (%s): no line `...%s` on stderr; stderr was %r" %
                             (a, kd, want, r["stderr"][-400:])))
     bound = expected_wall(case)
